@@ -889,6 +889,37 @@ fn random_history(rng: &mut StdRng, t: &mut Tracer, steps: usize, idx: usize) {
     }
 }
 
+/// C04: offers at which (fee share x the fraction the gross output's floor discards) carries into the next unit - a fee
+/// computed from anything but the integer gross output is one unit off exactly there. Shares with numerators above one.
+fn sc_fee_floor_boundaries(t: &mut Tracer) {
+    let mut w = PW::new(SysCfg::default(), t, "fee_floor_boundaries");
+    let (o, a) = (w.user(0), w.user(1));
+    let ok = w.creation_funds();
+    // protocol 0.3 %, swap 0.7 %, burn 0.03 %, extra 0.17 %
+    w.create_pool(&o, &["uusdc", "uusdt"], &[6, 6], fees(300, 700, 30, &[170]), CP, Some("ff"), &ok);
+    w.provide(&a, "o.ff", &[coin(1_000_000, "uusdc"), coin(1_000_000, "uusdt")], None, None, None, None, None);
+    let shares: [u128; 4] = [300, 700, 30, 170];
+    let mut found = 0;
+    let mut dx: u128 = 1000;
+    while found < 14 && dx < 200_000 {
+        let p = w.s.q_pool("o.ff").unwrap();
+        let (x, y) = (p.pool_info.assets[0].amount.u128(), p.pool_info.assets[1].amount.u128());
+        let (num, den) = (y * dx, x + dx);
+        let g = num / den;
+        // share * (num/den) floored differs from share * g floored for some share
+        let tips = shares.iter().any(|s| (s * num) / (den * 100_000) != (s * g) / 100_000);
+        if tips {
+            w.swap(&a, "o.ff", &[coin(dx, "uusdc")], "uusdt", None, Some(Decimal::percent(50)), None);
+            // and back, so that the reserves stay comparable
+            w.swap(&a, "o.ff", &[coin(g, "uusdt")], "uusdc", None, Some(Decimal::percent(50)), None);
+            found += 1;
+            dx += 997;
+        } else {
+            dx += 1;
+        }
+    }
+}
+
 pub fn run(rng: &mut StdRng, thorough: bool, t: &mut Tracer) {
     sc_create_pool_classes(t, SysCfg::default(), "create_pool_classes_fee_other_denom");
     sc_create_pool_classes(t, SysCfg { pool_fee: coin(1000, "uom"), ..Default::default() }, "create_pool_classes_fee_same_denom");
@@ -904,6 +935,7 @@ pub fn run(rng: &mut StdRng, thorough: bool, t: &mut Tracer) {
     if thorough {
         sc_long_route(t);
     }
+    sc_fee_floor_boundaries(t);
     let (n, steps) = if thorough { (30, 150) } else { (5, 80) };
     for i in 0..n {
         random_history(rng, t, steps, i);
